@@ -795,7 +795,7 @@ func TestC23Eth(t *testing.T) {
 	ev.Get(id).Extra("routers_unit", "pccm.TestC23Eth: eth, quorum (the routers sharing cross_chain_manager/eth/utils.go)")
 	ev.Drive(t, id,
 		"ETH/Quorum unit: one deposit import per case on a fresh main-net world; synthetic go-ethereum state (registered CCMC account + 1..9 other accounts, 1..6 storage slots), "+
-			"trie.Prove proofs with ONE mutation (re-ordered/extra/missing/bit-flipped nodes, nodes or complete proof of another account, of another slot, absence proof, wrong address, "+
+			"trie.Prove proofs with ONE mutation (re-ordered/extra/missing/bit-flipped nodes, nodes or complete proof of another account, of another slot, of a neighbour slot whose value is only related to the hash (last 1/2/3/8/16/20/31 bytes, 0x01||hash, first 16 bytes + zero tail, empty), absence proof, wrong address, "+
 			"upper-case address, altered nonce/balance/storage hash/code hash, altered message, malformed JSON, 0 or 2 storage proofs); target slot value classes: genuine, hash with leading "+
 			"zero byte (stored trimmed / untrimmed; message ground), proper suffix of the hash (1..31 bytes), fixed short flag value with the message ground so that its hash ends with it, prefix, "+
 			"empty, >32 bytes, other/bit-flipped/zero word; eth: tracked chain of 1..6 blocks (BlocksToWait 1..4, heights around the confirmation boundary, below the trust root, above the tip, "+
